@@ -124,9 +124,9 @@ class MpCalcBwContext(AbstractHashQueueContext):
 
         self.calc_bw()
 
-        while len(self.all_events) > 0:
-            e = self.all_events.pop()
-            revents += [e]
+        # release in arrival order: the stable sorts downstream then keep the order of events with equal ts
+        revents += self.all_events
+        self.all_events = []
 
 #        revents.sort(key=lambda x: x["ts"])
         return revents
